@@ -9,6 +9,7 @@ import KadDHT.Driver.C10
 import KadDHT.Driver.C13
 import KadDHT.Driver.C01
 import KadDHT.Driver.C01v
+import KadDHT.Driver.C02v
 open KadDHT.Driver
 
 def main (args : List String) : IO UInt32 := do
@@ -16,6 +17,7 @@ def main (args : List String) : IO UInt32 := do
   | ["C18"] => runPure C18.handle; return 0
   | ["C18v"] => runPure C18v.handle; return 0
   | ["C19"] => runLoop C19.step {}; return 0
+  | ["C02v"] => runLoop C02v.step {}; return 0
   | ["C01v"] => runLoop C01v.step {}; return 0
   | ["C01"] => runLoop C01.step {}; return 0
   | ["C13"] => runLoop C13.step (KadDHT.Mode.init .auto); return 0
